@@ -31,7 +31,7 @@ T = {
 }
 
 ROOT, PREFIX, ROUND = "/tmp/mut", "", 1
-for _r in (2, 3, 4, 5):
+for _r in (2, 3, 4, 5, 6):
     if "--round%d" % _r in sys.argv:
         sys.argv.remove("--round%d" % _r)
         ROOT, PREFIX, ROUND = "/tmp/mut%d" % _r, "r%d-" % _r, _r
@@ -48,6 +48,15 @@ def derive(demo):
         mod = "v2"
     else:
         mod = "."
+    # "cd v2/storage && go test ... ." : the package is given by the directory
+    m2 = re.search(r"cd\s+(\S+)\s*&&", head)
+    if m2 and pkg in ("", "."):
+        d = re.sub(r"^.*?/wt/", "", m2.group(1)).strip("/")
+        parts = d.split("/")
+        if parts and parts[0] in ("v2", "cmd"):
+            mod, parts = parts[0], parts[1:]
+        if parts and parts != ["."]:
+            pkg = "./" + "/".join(parts) + "/"
     return mod, pkg, run
 
 
